@@ -176,6 +176,23 @@ func (w *Worktree) PullContext(ctx context.Context, o *PullOptions) error {
 		return err
 	}
 
+	// The current branch (or a detached HEAD) is moved before Reset can
+	// refuse (unstaged changes): a pull that fails leaves it where it was.
+	var (
+		prevName plumbing.ReferenceName
+		prev     *plumbing.Reference
+	)
+	cur, curErr := w.r.Storer.Reference(plumbing.HEAD)
+	if curErr == nil {
+		prevName = plumbing.HEAD
+		if cur.Type() != plumbing.HashReference {
+			prevName = cur.Target()
+		}
+		if p, err := w.r.Storer.Reference(prevName); err == nil {
+			prev = p
+		}
+	}
+
 	if err := w.updateHEAD(ref.Hash()); err != nil {
 		return err
 	}
@@ -184,6 +201,13 @@ func (w *Worktree) PullContext(ctx context.Context, o *PullOptions) error {
 		Mode:   MergeReset,
 		Commit: ref.Hash(),
 	}); err != nil {
+		if curErr == nil {
+			if prev != nil {
+				_ = w.r.Storer.SetReference(prev)
+			} else {
+				_ = w.r.Storer.RemoveReference(prevName)
+			}
+		}
 		return err
 	}
 
